@@ -341,6 +341,8 @@ def run(ctx):
         else:
             step = draw(st.sampled_from(STEPS))
             start = draw(st.one_of(dec_start, st.sampled_from(["5.95", "4.95", "2.5", "-0.1", "0.1", "0", "-180", "-90", "3.95", "2.45", "0.05", "-0.05", "0.01", "-0.01", "0.001", "-0.3", "0.2"])))
+        if kind == "decimal" and draw(st.integers(0, 5)) == 0:
+            step = draw(st.sampled_from(["1/7", "1/3", "1/6", "2/3", "1/12", "1/60"]))      # equally spaced, not a decimal grid
         if kind in ("cleaner", "magbins", "arange"):
             n = max(n, 2)
         inp = draw(st.sampled_from(["ndarray", "ndarray", "ndarray", "list", "scalar", "float32", "int"]))
